@@ -151,6 +151,9 @@ class CallMixin:
             raise OutOfSubset('class attribute %s.%s' % (v.qual, attr))
         if isinstance(v, SV) and v.t.kind == 'tuple' and v.t.name:
             v = unpack(st, v.e, v.t)
+        if isinstance(v, TupV) and v.cls == 'Complex' and attr in ('real', 'imag'):
+            yield v.items[0 if attr == 'real' else 1], st
+            return
         if isinstance(v, TupV) and v.cls == 'BVec' and attr in ('all', 'any'):
             conds = [self.truth(x, st) for x in v.items]
             val = SV(BOOL, z3.And(conds) if attr == 'all' else z3.Or(conds))
@@ -216,7 +219,7 @@ class CallMixin:
         raise OutOfSubset('setattr on %r' % (o,))
 
     # ------------------------------------------------------------------ globals
-    EXTERNAL_MODULES = {'np': 'numpy', 'numpy': 'numpy', 'math': 'math', 'hq': 'heapq', 'heapq': 'heapq', 'cmath': 'cmath',
+    EXTERNAL_MODULES = {'cmath': 'cmath', 'np': 'numpy', 'numpy': 'numpy', 'math': 'math', 'hq': 'heapq', 'heapq': 'heapq', 'cmath': 'cmath',
                         'sp': 'scipy', 'scipy': 'scipy', 'deque': None}
 
     def resolve_global(self, name, st):
